@@ -66,4 +66,21 @@ HRemove(M, D, t) ==
                       !.data  = IF at >= L THEN Norm(D.data \o Hole(at - L))
                                 ELSE Cut(D.data, at, e.size)]]
 
-------------------------------------------------------------------------=============================================================================
+------------------------------------------------------------------------\* replace: refused when the copy has no block of the type, or when - with that entry taken out of the
+\* copy - a live entry would follow the first unused slot; otherwise remove, then add, both through
+\* the same copy; a comment that is not given is carried over from the copy's entry
+RepCauses(M, b) ==
+  IF ~MHas(M, b.t) THEN {"missing"}
+  ELSE LET p == MFirst(M, b.t)
+           rest == [i \in 1..(Len(M) - 1) |-> IF i < p THEN M[i] ELSE M[i + 1]]
+       IN IF MHas(rest, 0) /\ MHole(rest, MFirst(rest, 0)) THEN {"hole"} ELSE {}
+\* (with a stale copy the add that follows the remove can still be refused - the copy may list the
+\* type twice -: the call raises then, and the removal stays: field ok)
+HReplace(M, D, b) ==
+  LET old == M[MFirst(M, b.t)]
+      bb  == IF b.c = NoComment THEN [b EXCEPT !.c = old.comment] ELSE b
+      r1  == HRemove(M, D, b.t)
+  IN IF AddCauses(r1.m, bb) = {}
+     THEN LET r2 == HAdd(r1.m, r1.d, bb) IN [m |-> r2.m, d |-> r2.d, ok |-> TRUE]
+     ELSE [m |-> r1.m, d |-> r1.d, ok |-> FALSE]
+=============================================================================
